@@ -39,6 +39,24 @@ def make_cases(rng, tier):
                 c = make_case(cid, body, [d for d in base if d["name"] not in names] + hx + inj, rng=rng, fancy=True, prelude=prelude, sal=1, multiline=rng.random() < 0.6)
                 c["fault"], c["position"] = name, pos
                 cases.append(c); cid += 1
+    # faults of the COMPOUND ASSIGNMENT OPERATOR itself (the right-hand side evaluates; the addition / division of the target's
+    # current value and that value fails) on every kind of target: a local, a struct field, entries of maps injected by value
+    # and by pointer (string and variable keys), a slice element
+    targets = [("local", ("var", "loc")), ("field", ("var", "h.I64")), ("map-entry", ("map", mapvar("gm", ("str", "a")))), ("pmap-entry", ("map", mapvar("pm", ("str", "a")))),
+               ("pmap-entry-variable-key", ("map", mapvar("pm", ("var", "kk")))), ("slice-element", ("map", mapvar("sq", ("int", 1))))]
+    opfaults = [("+=", matom(const(kstr("x")))), ("-=", matom(const(kstr("x")))), ("*=", matom(const(kstr("x")))), ("/=", mint(0)), ("/=", matom(const(kstr("x"))))]
+    for rep in range(1 if tier == "quick" else 6):
+        for tname, tgt in targets:
+            for op, rhs in opfaults:
+                import copy
+                stmts = [assign(("var", "loc"), "=", ("math", mint(3))), assign(("var", "kk"), "=", ("math", matom(const(kstr("a"))))), scall(call("func", "Mark", [("const", kint(1))])),
+                         assign(copy.deepcopy(tgt), op, ("math", copy.deepcopy(rhs))), scall(call("func", "Mark", [("const", kint(2))]))]
+                filler = [assign(("var", "f%d" % i), "=", ("math", mint(i))) for i in range(rng.randint(0, 4))]
+                inj = [inj_func("Mark"), inj_struct("h"), inj_map("gm", "s", "i64", [(tv_str("a"), tv_int("i64", 7))]), inj_map("pm", "s", "i64", [(tv_str("a"), tv_int("i64", 7))], byptr=True),
+                       inj_seq("sq", "i64", [tv_int("i64", 1), tv_int("i64", 2)])]
+                c = make_case(cid, block(filler + stmts), inj, rng=rng, fancy=True, sal=1, multiline=rng.random() < 0.5)
+                c["fault"], c["position"] = "compound-operator " + op, "compound-op-" + tname
+                cases.append(c); cid += 1
     # the same compiled text executed AGAIN with other data: a block whose FIRST child failed in the first execution and whose
     # SECOND child is the only one that fails in the second — what the second error cites is the second child's line only
     hs = lambda x, y: inj_struct("h", fields={"I64": tv_int("i64", x), "I32": tv_int("i32", y)})
@@ -66,7 +84,7 @@ def nontrivial(c, o):
 
 RULE = ("single-fault programs: 31 fault classes x 24 construct positions (as C09, incl. conc blocks nested in for / if / else and blocks made of calls of one kind) printed under random layouts — random indentation, tabs, blank lines, comment lines, line breaks in the middle of constructs (60 % of the texts), the faulty arithmetic inside brackets (40 %), 0-4 filler statements before the fault, 0-2 other rules "
         "before the faulty rule in the same text — so that the faulty construct lands on an arbitrary line; compared: every (line, column) cited by the error text (regex `line N, column M`) with the citation list of the model, whose node "
-        "positions are those the printer assigned to first tokens, and every node position in the listener-built tree with the printer's; plus 12 blocks executed a second time with other data (another child fails: the second error cites that child only); distinct non-trivial = distinct (fault class, position, cited line) with at least one citation")
+        "positions are those the printer assigned to first tokens, and every node position in the listener-built tree with the printer's; plus 30 faults of the compound assignment operator itself (`+=` `-=` `*=` with a string, `/=` by zero and by a string) on a local, a struct field, entries of maps injected by value and by pointer (constant and variable keys) and a slice element; plus 12 blocks executed a second time with other data (another child fails: the second error cites that child only); distinct non-trivial = distinct (fault class, position, cited line) with at least one citation")
 
 
 def far_lines(run):
